@@ -434,7 +434,7 @@ func (o *c13Oracle) AfterRun(w *World, op *Op, res *RunResult) {
 			return
 		}
 		if len(res.Plan) > 0 {
-			w.Fail("invariance:unchanged-config-looks-changed:"+w.Plan.Meta["inv"], "after [%s] Run{-c} plans %v", w.Plan.Meta["inv"], res.PlannedAliases())
+			w.Fail("invariance:unchanged-config-looks-changed", "after %s Run{-c} plans %v", invOps(w.Plan), res.PlannedAliases())
 		}
 	case op.HasTag("force") && arm == "invariance":
 		if !res.OK() {
@@ -444,7 +444,7 @@ func (o *c13Oracle) AfterRun(w *World, op *Op, res *RunResult) {
 		after := hashLines(w)
 		for id, h := range o.hashBefore {
 			if after[id] != h {
-				w.Fail("invariance:hash-line-differs:"+w.Plan.Meta["inv"], "entity %s: hash line written now %q differs from the one written at generation %q although the configuration is unchanged", id, after[id], h)
+				w.Fail("invariance:hash-line-differs", "entity %s after %s: hash line written now %q differs from the one written at generation %q although the configuration is unchanged", id, invOps(w.Plan), after[id], h)
 				return
 			}
 		}
@@ -535,4 +535,26 @@ func exploreC13Invariance(t *testing.T, seed uint64, idx int, tier string, sink 
 		sink.Cell("invariance:" + d)
 	}
 	sink.Report(w)
+}
+
+// invOps lists the invariance operations still present in a (possibly minimised) plan.
+func invOps(p *Plan) []string {
+	var out []string
+	seen := false
+	for _, o := range p.Ops {
+		if o.K == "run" {
+			if o.HasTag("gen") {
+				seen = true
+			}
+			continue
+		}
+		if seen {
+			l := o.Label
+			if l == "" {
+				l = o.K
+			}
+			out = append(out, l)
+		}
+	}
+	return out
 }
